@@ -162,6 +162,10 @@ pub fn library() -> Vec<Mol> {
         ("H", -1.2, -1.85, 0.0), ("H", -1.88, -0.45, 0.88), ("H", -1.88, -0.45, -0.88)]));
     v.push({ let mut m = ring(6, 6, 1.40, 1, 1.09); m.name = "benzene".into(); m });
     v.push(alkane(2)); v.push(alkane(4));
+    // a builder's benzene (slightly irregular, as in the repository's own fixture) next to the ideal ring above
+    v.push(named("benzene-built", &[("C", -0.50959, 1.40925, 0.0), ("C", -0.50172, -0.01013, 0.0), ("C", 0.71485, 2.13236, 0.0), ("C", 1.91595, 1.39203, 0.0),
+        ("C", 1.91230, -0.00722, 0.0), ("C", 0.71648, -0.73162, 0.0), ("H", 0.75399, -1.83203, 0.0), ("H", -1.42864, -0.58129, 0.0), ("H", -1.47287, 1.94140, 0.0),
+        ("H", 0.78724, 3.23589, 0.0), ("H", 2.86816, 1.90649, 0.0), ("H", 2.85791, -0.54513, 0.0)]));
     v
 }
 
